@@ -195,7 +195,8 @@ Const = _node("Const", "name ty expr")
 FnDef = _node("FnDef", "name tparams params ret body public")
 # Entry: an exported function returning Data; hints[i] is the type a Data parameter is meant to encode (or None)
 Entry = _node("Entry", "fn hints result_ty")
-Module = _node("Module", "adts consts fns entries features")
+# meta: {"alias": {ast name: printed name}, "qualified": [names printed as lib.name], "local": [fns living in module m]}
+Module = _node("Module", "adts consts fns entries features meta")
 
 PRELUDE_ADTS = {
     "Option": AdtDecl("Option", ["a"], [Ctor("Some", [(None, ("Var", "a"))]), Ctor("None", [])]),
